@@ -58,6 +58,18 @@ Proof. exact c18_call_order. Qed.
 Theorem C18_compute_next_gt : forall l c, 0 <= l < i64_max -> l < compute_next l c.
 Proof. exact compute_next_gt. Qed.
 
+(* independent specification: compute_next returns the LEAST value that is above `last` and not below the clock
+   reading (for a pre-epoch reading: the least value above `last`) - i.e. max(reading, last + 1) *)
+Theorem C18_compute_next_spec : forall last c v,
+  0 <= last < i64_max -> (forall m, c = Some m -> 0 <= m <= i64_max) ->
+  (v = compute_next last c <->
+   (last < v /\ (forall m, c = Some m -> m <= v) /\
+    forall w, last < w -> (forall m, c = Some m -> m <= w) -> v <= w)).
+Proof. exact compute_next_spec. Qed.
+Theorem C18_compute_next_max : forall last m, 0 <= last < i64_max -> 0 <= m <= i64_max ->
+  compute_next last (Some m) = Z.max m (last + 1) /\ compute_next last None = last + 1.
+Proof. exact compute_next_max. Qed.
+
 (* the clock-skew warning branch (i64 `last - u_cur`): it cannot overflow for any reading below 2^63
    microseconds (nor for a pre-epoch reading), and then the warning configuration does not change
    the result; for a reading of 2^63 microseconds it does overflow - a panic under overflow checks *)
@@ -65,33 +77,29 @@ Theorem C18_warn_sub_safe : forall last m, 0 <= last <= i64_max -> 0 <= m < 2 ^ 
   warn_sub_overflows last (Some m) = false /\
   forall w, compute_next_checked w last (Some m) = Some (compute_next last (Some m)).
 Proof. exact warn_sub_safe. Qed.
-Theorem C18_warn_sub_safe_preepoch : forall w last,
-  compute_next_checked w last None = Some (compute_next last None).
-Proof. exact warn_sub_safe_preepoch. Qed.
+(* the exact boundary: for a reading that fits a u64, the subtraction overflows iff the reading lies in
+   [2^63, 2^63 + last] (so never below 2^63 us, and for EVERY reading in that window) *)
+Theorem C18_warn_sub_overflow_iff : forall last m, 0 <= last <= i64_max -> 0 <= m < 2 ^ 64 ->
+  (warn_sub_overflows last (Some m) = true <-> 2 ^ 63 <= m <= 2 ^ 63 + last).
+Proof. exact warn_sub_overflow_iff. Qed.
 Theorem C18_warn_sub_overflow_witness :
   warn_sub_overflows 1700000000000000 (Some (2 ^ 63)) = true /\
   compute_next_checked true 1700000000000000 (Some (2 ^ 63)) = None /\
   compute_next_checked false 1700000000000000 (Some (2 ^ 63)) = Some 1700000000000001.
 Proof. exact warn_sub_overflow_witness. Qed.
 
-(* a timestamp set on the statement is the one sent, and the generator is not consulted *)
-Theorem C18_explicit : forall t gen,
-  choose_ts (Some t) gen = Some t /\ gen_consulted (Some t) = false.
-Proof. exact choose_ts_explicit. Qed.
-
-Theorem C18_generated : forall gen, choose_ts None gen = gen /\ gen_consulted None = true.
-Proof. exact choose_ts_generated. Qed.
-(* NOTE: C18_explicit / C18_generated unfold a two-line definition; the sentence "an explicit statement
-   timestamp is sent unchanged in preference to a generated one" rests on the end-to-end tie (E cases),
-   which compares the frames of the real driver with choose_ts / frames_ts. *)
-
-(* every frame of a request - the first and the ones re-sent after an UNPREPARED answer - carries
-   the same timestamp choose_ts picked; with a statement timestamp that is the statement's *)
-Theorem C18_frames_ts : forall stmt gen k,
+(* which timestamp a frame carries, as a characterisation of choose_ts / frames_ts / gen_consulted (small
+   functions: this is what they are specified to be, the end-to-end tie compares the real frames with them):
+   every frame of a request - also the ones re-sent after UNPREPARED - carries choose_ts; that is the
+   statement's timestamp iff there is one, else the generated one; the generator is consulted iff the
+   statement has none *)
+Theorem C18_frames_ts_iff : forall stmt gen k f t,
+  (In f (frames_ts stmt gen k) <-> f = choose_ts stmt gen) /\
+  (choose_ts stmt gen = Some t <-> stmt = Some t \/ (stmt = None /\ gen = Some t)) /\
+  (choose_ts stmt gen = None <-> stmt = None /\ gen = None) /\
   List.length (frames_ts stmt gen k) = S k /\
-  (forall f, In f (frames_ts stmt gen k) -> f = choose_ts stmt gen) /\
-  (forall t, stmt = Some t -> frames_ts stmt gen k = repeat (Some t) (S k)).
-Proof. exact frames_ts_spec. Qed.
+  (gen_consulted stmt = true <-> stmt = None).
+Proof. exact frames_ts_iff. Qed.
 
 (* the predicate evaluated by the correspondence check on the real generator's outputs IS the
    property (distinct over all threads, increasing per thread), and every run of the model
@@ -180,12 +188,12 @@ Print Assumptions C18_distinct.
 Print Assumptions C18_thread_mono.
 Print Assumptions C18_call_order.
 Print Assumptions C18_compute_next_gt.
+Print Assumptions C18_compute_next_spec.
+Print Assumptions C18_compute_next_max.
 Print Assumptions C18_warn_sub_safe.
-Print Assumptions C18_warn_sub_safe_preepoch.
+Print Assumptions C18_warn_sub_overflow_iff.
 Print Assumptions C18_warn_sub_overflow_witness.
-Print Assumptions C18_explicit.
-Print Assumptions C18_generated.
-Print Assumptions C18_frames_ts.
+Print Assumptions C18_frames_ts_iff.
 Print Assumptions C18_prop_ok_iff.
 Print Assumptions C18_model_accepted.
 Print Assumptions C18_accept_sample_sound.
